@@ -21,6 +21,7 @@ type InterfaceModel struct {
 // @immutable
 type InterfaceMethod struct {
 	Name    string
+	ID      string // types.Func.Id(): unexported names are qualified by their package
 	Inputs  []InterfaceType
 	Outputs []InterfaceType
 }
@@ -33,6 +34,7 @@ type InterfaceType struct {
 	TypePackage string
 	IsPointer   bool
 	IsVariadic  bool
+	Type        types.Type // the parameter/result type itself (nil in hand-built models)
 }
 
 // LoadInterfaces loads specified interfaces from the analysis pass
@@ -128,6 +130,7 @@ func extractMethodsFromInterface(iface *types.Interface) []InterfaceMethod {
 
 		methods = append(methods, InterfaceMethod{
 			Name:    method.Name(),
+			ID:      method.Id(),
 			Inputs:  extractTypesFromTuple(sig.Params(), sig.Variadic()),
 			Outputs: extractTypesFromTuple(sig.Results(), false),
 		})
@@ -159,6 +162,8 @@ func extractTypesFromTuple(tuple *types.Tuple, isVariadic bool) []InterfaceType 
 				result[i].IsVariadic = true
 			}
 		}
+
+		result[i].Type = param.Type()
 	}
 
 	return result
